@@ -52,7 +52,7 @@ int g_rstep;           /* 0,1,2,3 */
 int g_rc;              /* counter index chosen (from the countingLeft value loaded) */
 int g_rs;              /* side read */
 int g_decs;            /* decrements performed by the verified deleter call */
-struct vf_atomic_int *g_dec_on;
+void *g_dec_on;
 
 void vf_havoc_pop(void)
 {
@@ -175,7 +175,7 @@ void vf_lr_atomic_write(void *a, long o, long n, int rmw)
       __CPROVER_assert(LR_INV, "[C03] RG: registration keeps the counter invariant");
     } else if (n == o - 1) {
       g_decs = g_decs + 1;
-      g_dec_on = (struct vf_atomic_int *)a;
+      g_dec_on = (void *)a;
     } else {
       __CPROVER_assert(0, "[C03] a reader changes a counter by something other than +1 / -1");
     }
@@ -268,7 +268,7 @@ FN = {
         requires=['vf_U == self && g_role == ROLE_READER && LR_INV && g_rstep == 0 && g_decs == 0 && vf_held == 0 && !vf_exc && gq0 < VF_BIG - 3 && gq1 < VF_BIG - 3 && ' + R3],
         ensures=[('C03', 'g_rstep == 3 && LR_INV', 'protocol followed: load countingLeft, register in that counter, then read the side flag'),
                  ('C03', 'vf_ret->p == (g_rs ? &self->m_left : &self->m_right)', 'the handle points to the copy selected by the side flag value just loaded'),
-                 ('C03', 'vf_ret->d.m_readingCount == (g_rc ? (struct vf_atomic_int *)&self->m_leftReadCount : (struct vf_atomic_int *)&self->m_rightReadCount)', 'the deleter is bound to the counter that was incremented'),
+                 ('C03', 'vf_ret->d.m_readingCount == (g_rc ? (void *)&self->m_leftReadCount : (void *)&self->m_rightReadCount)', 'the deleter is bound to the counter that was incremented'),
                  ('C14', 'vf_n_mutex_ops == __CPROVER_old(vf_n_mutex_ops) && vf_n_block == __CPROVER_old(vf_n_block) && vf_n_yield == __CPROVER_old(vf_n_yield) && vf_n_cvwait == __CPROVER_old(vf_n_cvwait) && vf_n_timed == __CPROVER_old(vf_n_timed)',
                   'no mutex, no wait, no yield: a bounded number of own steps whatever writers do'),
                  ('', '!vf_exc && g_decs == 0 && ' + G3, 'no exception, no deregistration')],
@@ -283,8 +283,8 @@ FN = {
         assigns='*vf_ret, *self, ' + LR_G),
     r'lr_guarded::shared_deleter::op_call': dict(
         props='C03 C14', loop_free=True,
-        setup='struct lr_guarded_vf_payload_std_mutex vf_lr; vf_U = &vf_lr; g_role = ROLE_READER; self->m_readingCount = vf_nondet_bool() ? (struct vf_atomic_int *)&vf_lr.m_leftReadCount : (struct vf_atomic_int *)&vf_lr.m_rightReadCount;',
-        requires=['g_role == ROLE_READER && g_decs == 0 && !vf_exc && g_rstep == 3 && (self->m_readingCount == (struct vf_atomic_int *)&vf_U->m_leftReadCount || self->m_readingCount == (struct vf_atomic_int *)&vf_U->m_rightReadCount) && LR_INV && ' + R3],
+        setup='struct lr_guarded_vf_payload_std_mutex vf_lr; vf_U = &vf_lr; g_role = ROLE_READER; self->m_readingCount = vf_nondet_bool() ? (void *)&vf_lr.m_leftReadCount : (void *)&vf_lr.m_rightReadCount;',
+        requires=['g_role == ROLE_READER && g_decs == 0 && !vf_exc && g_rstep == 3 && (self->m_readingCount == (void *)&vf_U->m_leftReadCount || self->m_readingCount == (void *)&vf_U->m_rightReadCount) && LR_INV && ' + R3],
         ensures=[('C03', 'ptr != 0 ==> (g_decs == 1 && g_dec_on == self->m_readingCount)', 'a non-null handle deregisters exactly once from the counter it registered in'),
                  ('C03', 'ptr == 0 ==> g_decs == 0', 'a null handle deregisters nothing'),
                  ('C14', 'vf_n_mutex_ops == __CPROVER_old(vf_n_mutex_ops) && vf_n_block == __CPROVER_old(vf_n_block) && vf_n_yield == __CPROVER_old(vf_n_yield)', 'releasing a handle never blocks'),
